@@ -51,7 +51,15 @@ namespace occa {
         }
       }
       if (encoding & encodingType::R) {
-        out << 'R';
+        // Raw strings hold their characters verbatim and need their delimiters:
+        //   R"delimiter(value)delimiter"
+        // Use a delimiter for which )delimiter" is not part of the value
+        std::string delimiter;
+        while (value.find(")" + delimiter + "\"") != std::string::npos) {
+          delimiter += '_';
+        }
+        out << "R\"" << delimiter << '(' << value << ')' << delimiter << '"' << udf;
+        return;
       }
       out << '"' << escape(value, '"') << '"' << udf;
     }
